@@ -259,3 +259,11 @@ from vlib import dtypecheck as _dt   # noqa: E402
          "(products of two narrow integers do not fit their dtype): " + ", ".join(sorted(_dt.TABLES["C16"])))
 def c16_dtype(ctx, case):
     _dt.body(ctx, case, _dt.TABLES["C16"])
+
+
+@sub("C16.layout", strategy=_dt.layout_case(sorted(_dt.TABLES["C16"])), quick=300, thorough=6000,
+     doc="a non-contiguous view of the samples (every second element of a buffer, the real part of a complex array, a column of a "
+         "2-D array, a negative-stride view, a row of a Fortran-ordered array) gives the same result as a contiguous copy, and the "
+         "input is not modified")
+def c16_layout(ctx, case):
+    _dt.layout_body(ctx, case, _dt.TABLES["C16"])
